@@ -4,6 +4,7 @@
 From Verif Require Import Base.Lex Region.Model Region.Ord Region.Converge Region.ProofsConvB Region.ProofsReach Region.ReadCtx Region.ProofsContains Region.GroupFilter Region.ProofsConvC Region.StoreResolve.
 From Coq Require Import Sorting.Sorted.
 From Verif Require Region.InvCheck.
+From Verif Require Import Region.ProofsTopRead.
 Open Scope N_scope.
 
 (* a returned context names the cached entry of the version asked for and one of ITS peers; nobody failed on that peer's
@@ -37,24 +38,17 @@ Print Assumptions C09_read_ctx_follower.
 Theorem C09_read_ctx_prefer_leader : forall c r seed kind,
   (epoch_fresh c r (r_work r) = true -> (r_work r < length (r_peers r))%nat -> pick_idx c r RkPreferLeader seed false = r_work r) /\
   (kind <> RkFollower -> pick_idx c r kind seed true = r_work r).
-Proof. intros c r seed kind. exact (conj (prefer_leader_work c r seed) (leader_only_work c r seed kind)). Qed.
+Proof. exact C09_read_ctx_prefer_leader_proof. Qed.
 Print Assumptions C09_read_ctx_prefer_leader.
 
 (* a replica read changes the cache only by invalidating the entry: reachable states stay reachable (and keep the invariant) *)
 Theorem C09_read_ctx_keeps_reachable : forall truth H c v kind seed lo,
   reach truth H c -> reach truth H (snd (rpc_ctx_read c v kind seed lo)).
-Proof.
-  intros truth H c v kind seed lo Hc. unfold rpc_ctx_read. destruct (get_by_verid c v) as [r|]; [|exact Hc].
-  destruct (r_reload r || r_expired r); [exact Hc|]. cbv zeta.
-  destruct (existsb (N.eqb (snd (nth (pick_idx c r kind seed lo) (r_peers r) (0, 0)))) (c_tomb c)); [apply R_entry; [apply ef_invalidate|exact Hc]|].
-  destruct (epoch_fresh c r (pick_idx c r kind seed lo)); [exact Hc|]. apply R_entry; [apply ef_invalidate|exact Hc].
-Qed.
+Proof. exact C09_read_ctx_keeps_reachable_proof. Qed.
 Print Assumptions C09_read_ctx_keeps_reachable.
 
 (* ---- non-vacuity ---- *)
 (* four peers, work peer 0, somebody failed on store 2 (epoch 1, the entry recorded 0) *)
-Definition rd_r := mkRegion 1 [] [] 1 1 [(1, 1); (2, 2); (3, 3); (4, 4)] 0 false 0 false false false [0; 0; 0; 0] None.
-Definition rd_c := mkCache [rd_r] [((1, 1, 1), [])] [(1, (1, 1))] [(2, 1)] [].
 Example C09_read_ctx_nonvacuous :
   (* follower read, seeds 0..3: followers 1(stale) -> next try 2, 2, 3, 1 -> 2 *)
   map (fun s => fst (rpc_ctx_read rd_c (1, 1, 1) RkFollower s false)) [0; 1; 2; 3] =
@@ -68,7 +62,6 @@ Proof. vm_compute. repeat split. Qed.
 (* observation (no clause of C09): the seed is a uint32 and seed++ wraps; 2^32 is not a multiple of l-1 = 3, so with seed
    2^32-1 the three tries are 1, 1, 2 — follower 3 is never tried and the read falls back to the leader although nobody
    failed on store 4 *)
-Definition rd_c2 := mkCache [rd_r] [((1, 1, 1), [])] [(1, (1, 1))] [(2, 1); (3, 1)] [].
 Example C09_read_ctx_follower_seed_wrap_example :
   epoch_fresh rd_c2 rd_r 3 = true /\
   fst (rpc_ctx_read rd_c2 (1, 1, 1) RkFollower 4294967295 false) = Some (rd_r, (1, 1), 0%nat) /\
@@ -88,10 +81,7 @@ Theorem C09_group_filter_sorted : forall pd budget keys fuel t c asg c' t',
   StronglySorted (fun a b => lex_ltb a b = true) keys ->
   group_assign_f pd budget eq_start fuel t c keys None [] = (Ok asg, c', t') ->
   forall kr, In kr asg -> r_contains (snd kr) (fst kr) = true /\ fst kr <> r_start (snd kr).
-Proof.
-  intros pd budget keys fuel t c asg c' t' H1 H2 Hs H.
-  exact (group_filter_sorted pd budget H1 H2 keys fuel t c None [] asg c' t' Hs ltac:(intros l E; discriminate E) ltac:(intros kr []) H).
-Qed.
+Proof. exact C09_group_filter_sorted_proof. Qed.
 Print Assumptions C09_group_filter_sorted.
 (* any filter, any keys: one decision per key in order (its location, which contains it; kept or not); a key is dropped only
    when the filter said so about the location looked up for that very key; the result lists the kept keys in order, once each *)
@@ -102,15 +92,11 @@ Theorem C09_group_filter_any : forall pd budget flt keys fuel t c asg c' t',
     map (fun d => fst (fst d)) ds = keys /\
     (forall k r b, In (k, r, b) ds -> r_contains r k = true /\ (b = false -> flt k (r_start r) = true)) /\
     asg = map fst (filter (fun d => snd d) ds).
-Proof. intros pd budget flt keys fuel t c asg c' t' H1 H2 H. exact (group_filter_any pd budget H1 H2 flt keys fuel t c None [] asg c' t' H). Qed.
+Proof. exact C09_group_filter_any_proof. Qed.
 Print Assumptions C09_group_filter_any.
 (* observation (no clause of C09; coordinator's ruling): unsorted or repeated keys — the filter is not consulted for a key served from the last location. Regions [-inf,m) and
    [m,+inf) cached; keys [x; m] and [m; m] keep m although it is the start key of its region; [m; x] skips it.
    (replayed on the code: `regioncache probe-groupfilter`) *)
-Definition gf_r1 := mkRegion 9 [] [109] 1 0 [(5, 1)] 0 false 0 false false false [0] None.
-Definition gf_r2 := mkRegion 10 [109] [] 1 0 [(11, 1)] 0 false 0 false false false [0] None.
-Definition gf_c := mkCache [gf_r1; gf_r2] [((9, 1, 0), []); ((10, 1, 0), [109])] [(9, (1, 0)); (10, (1, 0))] [] [].
-Definition gf_pd (t : nat) (q : pd_req) : pd_ans := PdOne None.
 Example C09_group_filter_unsorted_counterexample :
   fst (fst (group_assign_f gf_pd 0 eq_start 3 0 gf_c [[109]; [120]] None [])) = Ok [([120], gf_r2)] /\
   fst (fst (group_assign_f gf_pd 0 eq_start 3 0 gf_c [[120]; [109]] None [])) = Ok [([120], gf_r2); ([109], gf_r2)] /\
@@ -118,12 +104,6 @@ Example C09_group_filter_unsorted_counterexample :
   r_start gf_r2 = [109].
 Proof. vm_compute. repeat split. Qed.
 
-Definition cv_R1r := mkDesc 1 [] [98] 2 1 [(1, 1); (2, 2)] (2, 2) None.
-Definition cv_R2r := mkDesc 2 [98] [] 2 1 [(3, 1); (4, 2)] (3, 1) None.
-Definition cv_truth_r := [cv_R1r; cv_R2r].
-Definition cv_pd_r (t : nat) (q : pd_req) : pd_ans :=
-  match q with ReqGet k => PdOne (find (fun T => tcontains T k) cv_truth_r) | _ => PdOne None end.
-Definition cv_cache_r := mkCache [mkRegion 1 [] [] 1 1 [(1, 1); (2, 2)] 0 false 0 false false false [0; 0] None] [((1, 1, 1), [])] [(1, (1, 1))] [] [].
 (* ---- PD faults on the store path (GetStore failing transiently during initResolve / reResolve / the store check) ---- *)
 (* a transient failure leaves the store, and with it the cache, exactly as it was; initResolve asks again and the failed
    attempts do not influence the outcome; a store becomes a tombstone only when PD reported it removed *)
@@ -131,9 +111,7 @@ Theorem C09_store_fault_transient : forall c st n o rest l st',
   store_check c st RoTransient = c /\
   init_resolve (repeat RoTransient n ++ o :: rest) = init_resolve (o :: rest) /\
   (In st' (c_tomb (store_checks c l)) -> In st' (c_tomb c) \/ In (st', RoRemoved) l).
-Proof.
-  intros c st n o rest l st'. split; [reflexivity|]. split; [apply init_resolve_transient|apply store_checks_tomb].
-Qed.
+Proof. exact C09_store_fault_transient_proof. Qed.
 Print Assumptions C09_store_fault_transient.
 (* convergence over store checks with arbitrary outcomes: from any reachable state, after ANY sequence of store checks — each
    confirming the store, failing transiently, or finding the store removed (the latter only for stores without a current
@@ -146,11 +124,7 @@ Theorem C09_converges_store_faults : forall truth H cur_of pd budget fuel k T c 
   (0 < budget)%nat -> (0 < fuel)%nat ->
   In T truth -> tcontains T k = true ->
   rounds truth cur_of pd budget fuel 4 (store_checks c l) k = true.
-Proof.
-  intros truth H cur_of pd budget fuel k T c l H1 Hh Hr Hrm H2 H3 H4 H5 H6 H7.
-  pose proof (store_checks_reach truth H l c Hrm Hr) as Hr'.
-  exact (converges truth H1 cur_of H2 pd H3 budget fuel H4 H5 k T H6 H7 _ (proj1 (reach_rinv truth H Hh _ Hr'))).
-Qed.
+Proof. exact C09_converges_store_faults_proof. Qed.
 Print Assumptions C09_converges_store_faults.
 (* non-vacuity: store 1 leads region 2 of the example; two transient failures and a confirmation leave the cache untouched
    and the request converges; had the failures been taken for "removed", the leader's store would be buried:
